@@ -407,7 +407,8 @@ def main(args):
     from vlib import pool
     from contracts import lr1_table
     n0 = len(run.obligations)
-    pool.run_targets(run, "contracts.lr1_table", ["action_step", "parse_step", "items_step"])
+    pool.run_targets(run, "contracts.lr1_table", ["action_step", "parse_step", "items_step", "parallel_goto"])
+    run.function("compiler.front_end.lr1.Grammar._parallel_goto", "pyvc: for item sets of real Item tuples, the goto of every symbol is the union of the closures of the advanced items; completed items contribute nothing; memoised closures are reused")
     run.function("compiler.front_end.lr1.Grammar._items", "pyvc: one iteration of its worklist loop: every goto set gets the number of the state with exactly that item set (an existing state is shared, equal new sets share one new state), "
                  "new states are appended once in sorted-symbol order, the no-duplicates / inverse-index-map invariant is re-established")
     run.function("compiler.front_end.lr1.Parser.parse", "pyvc: one iteration of its loop from a generic configuration (stack depth <= 4, rhs length <= 2): Shift / Reduce (node over the popped trees in order, goto of the state below) / "
